@@ -191,10 +191,14 @@ fn run_dump(
     let system_info = SystemInfo::new(e)
         .set_processor_architecture(arch)
         .set_platform_id(match os {
-            0 => 2,      // Windows NT
+            0 => 2,      // Windows (VER_PLATFORM_WIN32_WINDOWS)
             1 => 0x8201, // Linux
             2 => 0x8101, // macOS
-            _ => 0x8202, // Solaris: an OS the GPF test does not know
+            3 => 0x8202, // Solaris: an OS the GPF test does not know
+            4 => 0x8203, // Android: Linux-style reasons, but not Os::Linux
+            5 => 0x8102, // iOS: mac-style reasons, but not Os::MacOs
+            6 => 3,      // Windows NT
+            _ => 0x8202,
         });
     let ctx_label = context.file_offset();
     let ctx_size = context.file_size();
